@@ -28,6 +28,10 @@ type HarnessPlan struct {
 	MapOrder int             `json:"mapOrderMax"`
 	Solver   string          `json:"solver"`
 	Sticky   bool            `json:"mapOrderSticky"`
+	BMC bool `json:"bmc"`
+	Race bool `json:"race"`
+	BMCTime int `json:"bmcTimeoutS"`
+	MaxEvents int `json:"maxEvents"`
 	Sched    bool            `json:"schedChoice"`
 	SchedMax int             `json:"maxSchedPoints"`
 	Note     string          `json:"note"`
@@ -54,6 +58,7 @@ type instance struct {
 	hp     HarnessPlan
 	params []int
 	res    *sym.RunResult
+	bmc    *sym.BMCResult
 }
 
 func expand(ranges [][2]int) [][]int {
@@ -120,7 +125,7 @@ func cmdCheck(args []string) {
 		}
 	}
 
-	theReplayer.race = *prop == "C19"
+	theReplayer.race = *prop == "C19" || *prop == "C04" || *prop == "C05" || *prop == "C06"
 	sym.InitPool(*workers, "z3", 30000)
 	defer sym.ClosePool()
 	deadline := time.Time{}
@@ -153,6 +158,32 @@ func cmdCheck(args []string) {
 			if pkg == "" {
 				pkg = "zzvh"
 			}
+			if in.hp.BMC {
+				to := in.hp.BMCTime
+				if to == 0 {
+					to = 120
+				}
+				solver := in.hp.Solver
+				if solver == "" {
+					solver = "cvc5"
+				}
+				in.bmc = sym.ModelCheck(pr, pr.ModPath+"/"+pkg, in.hp.Fn, in.params, solver, to*1000, in.hp.Race, in.hp.MaxEvents)
+				in.res = &sym.RunResult{Harness: in.hp.Fn, Params: in.params, Reach: map[string]int{"end": 1}, Funcs: map[string]int{}, Stubs: map[string]int{}}
+				switch in.bmc.Verdict {
+				case "violation":
+					if in.bmc.Kind == "event-bound-exceeded" || in.bmc.Kind == "sequence-bound-exceeded" {
+						in.res.Aborts = append(in.res.Aborts, sym.Event{Kind: sym.EvAbort, Label: "bound", Detail: "the event / sequence bound of the model is reachable: " + in.bmc.Kind})
+						return
+					}
+					detail := strings.Join(in.bmc.TraceText, " ; ")
+					in.res.Violations = append(in.res.Violations, sym.Event{Kind: sym.EvViolation, Label: "bmc:" + in.bmc.Kind, Detail: detail, Choices: in.bmc.Schedule})
+				case "unknown":
+					in.res.Unknown = append(in.res.Unknown, sym.Event{Kind: sym.EvUnknown, Label: "bmc", Detail: in.bmc.Detail})
+				case "unsupported":
+					in.res.Aborts = append(in.res.Aborts, sym.Event{Kind: sym.EvAbort, Label: "outside the modelled fragment", Detail: in.bmc.Detail})
+				}
+				return
+			}
 			cfg := sym.RunConfig{PkgPath: pr.ModPath + "/" + pkg, Harness: in.hp.Fn, Params: in.params, MaxSteps: steps, MaxDepth: 300, MaxMake: 64,
 				Workers: *workers, UsePool: true, SolverBin: in.hp.Solver, Known: known, MapOrderMax: mo, MapOrderSticky: in.hp.Sticky, SchedChoice: in.hp.Sched, MaxSchedPoints: in.hp.SchedMax, Deadline: deadline, MaxPaths: 200000}
 			in.res = pr.Run(cfg)
@@ -179,6 +210,7 @@ func cmdCheck(args []string) {
 	var notes []string
 	printedKnown := map[string]bool{}
 	totalViol := 0
+	knownBMC := 0
 	var replayed int
 	type pendingViol struct {
 		in   *instance
@@ -233,6 +265,23 @@ func cmdCheck(args []string) {
 		sort.Slice(r.Violations, func(i, j int) bool { return r.Violations[i].Label < r.Violations[j].Label })
 		seenLabel := map[string]bool{}
 		for _, v := range r.Violations {
+			if in.bmc != nil {
+				matched := false
+				for _, f := range kf.Findings {
+					if f.Status == "known" && f.Property == *prop && strings.HasPrefix(in.hp.Fn, f.Harness) && (f.Label == "*" || strings.HasPrefix(v.Label, f.Label)) {
+						line := fmt.Sprintf("KNOWN-FINDING: property=%s %s", *prop, f.Text)
+						if !printedKnown[line] {
+							printedKnown[line] = true
+							fmt.Println(line)
+						}
+						matched = true
+					}
+				}
+				if matched {
+					knownBMC++
+					continue
+				}
+			}
 			totalViol++
 			if seenLabel[v.Label] {
 				continue
@@ -525,6 +574,11 @@ func nativeReplay(repo, vdir, replayPath string) (bool, string) {
 	if strings.Contains(out, "VF-ASSUME-FAILED") {
 		return false, "assumption failed natively\n" + tail(out, 10)
 	}
+	if strings.HasPrefix(doc.Label, "bmc:") {
+		hit := strings.Contains(out, "DATA RACE") || strings.Contains(out, "VF-ASSERT-FAILED") || strings.Contains(out, "VF-DEADLOCK") ||
+			strings.Contains(out, "VF-PANIC") || strings.Contains(out, "panic:") || strings.Contains(out, "test timed out") || strings.Contains(out, "all goroutines are asleep")
+		return hit, tail(out, 14)
+	}
 	if theReplayer.race && strings.HasPrefix(doc.Label, "no-interference") {
 		return strings.Contains(out, "DATA RACE") || strings.Contains(out, "VF-PAR-PANIC") || strings.Contains(out, "concurrent map"), tail(out, 12)
 	}
@@ -682,6 +736,35 @@ func writeEvidence(vdir, prop, tier string, seed int, insts []*instance, pp Prop
 		"notes":                             notes,
 		"exhaustive":                        false,
 	}
+	level := "other"
+	bmcStates, bmcTrans, bmcProgs, bmcQueries := 0, 0, 0, 0
+	bmcSolver := 0.0
+	var bmcSamples []interface{}
+	for _, in := range insts {
+		if in.bmc == nil {
+			continue
+		}
+		level = "model_checking"
+		bmcProgs++
+		bmcStates += in.bmc.Steps + 1
+		bmcTrans += in.bmc.Transitions
+		bmcQueries += in.bmc.Queries
+		bmcSolver += in.bmc.SolverS
+		if len(bmcSamples) < 5 {
+			bmcSamples = append(bmcSamples, map[string]interface{}{"program": in.hp.Fn, "params": in.params, "verdict": in.bmc.Verdict, "unrolled_steps": in.bmc.Steps,
+				"guarded_transitions": in.bmc.Transitions, "state_variables_per_step": in.bmc.StateVars, "solver_s": in.bmc.SolverS, "kind": in.bmc.Kind})
+		}
+	}
+	if level == "model_checking" {
+		cov["states"] = max(1, bmcStates)
+		cov["transitions"] = max(1, bmcTrans)
+		cov["traces_validated_against_impl"] = extraInt(extra, "replayed")
+		cov["samples"] = append(bmcSamples, samples...)
+		cov["bmc_programs"] = bmcProgs
+		cov["bmc_queries"] = bmcQueries
+		cov["bmc_solver_time_s"] = bmcSolver
+		cov["states_note"] = "bounded model checking is symbolic: 'states' counts the unrolled symbolic state vectors (one per step per program), 'transitions' the guarded event transitions encoded; each query covers every schedule of the program up to the unrolling depth, which equals the maximal number of steps of the program (complete for terminating programs)"
+	}
 	for k, v := range extra {
 		cov[k] = v
 	}
@@ -689,7 +772,7 @@ func writeEvidence(vdir, prop, tier string, seed int, insts []*instance, pp Prop
 		"property_id": prop,
 		"tier":        tier,
 		"seed":        seed,
-		"level":       "other",
+		"level":       level,
 		"coverage":    cov,
 		"assumptions": pp.Assumptions,
 		"wall_s":      wall.Seconds(),
@@ -698,4 +781,11 @@ func writeEvidence(vdir, prop, tier string, seed int, insts []*instance, pp Prop
 	b, _ := json.MarshalIndent(ev, "", " ")
 	os.MkdirAll(filepath.Join(vdir, "evidence"), 0o755)
 	os.WriteFile(filepath.Join(vdir, "evidence", prop+".json"), b, 0o644)
+}
+
+func extraInt(m map[string]interface{}, k string) int {
+	if v, ok := m[k].(int); ok {
+		return v
+	}
+	return 0
 }
